@@ -1,7 +1,6 @@
 package pongo2
 
 import (
-	"errors"
 	"fmt"
 	"reflect"
 	"strconv"
@@ -255,17 +254,13 @@ func (vr *variableResolver) resolve(ctx *ExecutionContext) (*Value, error) {
 		// strings anymore (which bypasses autoescape, "in" and the filters).
 		items := make([]any, 0, len(vr.parts))
 		for _, part := range vr.parts {
-			switch v := part.subscript.(type) {
-			case *nodeFilteredVariable:
-				item, err := v.resolver.Evaluate(ctx)
-				if err != nil {
-					return nil, err
-				}
-
-				items = append(items, item.Interface())
-			default:
-				return nil, errors.New("unknown variable type is given")
+			// (the whole item expression, i. e. including the filters written on it)
+			item, err := part.subscript.Evaluate(ctx)
+			if err != nil {
+				return nil, err
 			}
+
+			items = append(items, item.Interface())
 		}
 
 		// (not marked safe: the "safe" flag of a value is inherited by what is
